@@ -19,8 +19,8 @@ def check(run, driver):
     C = importlib.import_module("causationentropy.core.information.conditional_mutual_information")
     run.rule = (
         "tie-free continuous samples, N in k+2..60 (quick <= 40), d in 1..5, k in 1..8 (both regimes k<d and k>=d), scales 0.1..10: "
-        "(i) the real geometric_knn_entropy vs an INDEPENDENT evaluation of the published formula (brute-force neighbours, eigen-decomposition "
-        "of the local scatter matrix instead of the SVD routine); cases whose ellipsoid sum lies within 1e-6 of the threshold 1 or whose k-th / "
+        "(i) the real geometric_knn_entropy vs an INDEPENDENT evaluation of the published formula (brute-force neighbours, a one-sided Jacobi SVD "
+        "written in the harness instead of the LAPACK routine); cases whose ellipsoid sum lies within 1e-6 of the threshold 1 or whose k-th / "
         "(k+1)-th neighbour distances are within 1e-9 are skipped and counted; (ii) translation, random orthogonal map, scaling (+d log a) and "
         "row permutation on the real function; (iii) MI / CMI = documented signed sums of such entropies. Non-trivial = d>=2 and k>=2"
     )
@@ -160,4 +160,4 @@ def check(run, driver):
         "packaged singular-value invariance); the published formula is evaluated by an independent implementation and the four laws are checked "
         "directly on the real function with the deltas the theorems predict. LAPACK's SVD is runtime behaviour outside the model."
     )
-    run.assumptions += ["tie-free samples; margin filters counted in `skipped`", "the independent reference uses np.linalg.eigh of the local scatter matrix with a relative rank threshold 1e-13"]
+    run.assumptions += ["tie-free samples; margin filters counted in `skipped`", "the independent reference uses its own one-sided Jacobi SVD with a relative rank threshold 1e-9 on the singular values"]
